@@ -1147,3 +1147,360 @@ Proof.
   rewrite cancel_outputs_get by exact Hwf. rewrite Hg. unfold cancelled_rec, cancel_cond.
   rewrite A, Hl, B3, Hroot, N.eqb_refl. cbn [optN_eqb]. rewrite N.eqb_refl. reflexivity.
 Qed.
+
+(* ================================================================== one live entry per slate *)
+(** C03, second sentence, at history level: a slate never has two live log entries of the same
+    kind in one account — however often reserve / receive / finalize are repeated, re-ordered or
+    replayed. *)
+Definition live_class (t : trec) : N :=
+  match t_type t with TSent => 1 | TReceived | TReverted => 2 | _ => 0 end.
+
+Definition same_slot (a b : trec) : Prop :=
+  live_class a <> 0 /\ live_class a = live_class b /\ t_slate a <> None /\ t_slate a = t_slate b
+  /\ t_parent a = t_parent b.
+
+Definition Uniq (l : list trec) : Prop :=
+  forall a b, In a l -> In b l -> same_slot a b -> t_id a = t_id b.
+
+Lemma in_save_tx_sorted l x t :
+  StronglySorted tlt l -> In t (save_tx l x) ->
+  t = x \/ (In t l /\ ~ (t_parent t = t_parent x /\ t_id t = t_id x)).
+Proof.
+  induction l as [|y r IH]; cbn [save_tx]; intros Hs Hin.
+  - destruct Hin as [<-|[]]. now left.
+  - apply StronglySorted_inv in Hs as [Hr Hy]. rewrite Forall_forall in Hy.
+    destruct (tkey_eqb y (t_parent x) (t_id x)) eqn:E.
+    + destruct Hin as [<-|Hin]; [now left|]. right. split; [now right|].
+      apply tkey_eqb_iff in E as [A B]. specialize (Hy t Hin). unfold tlt in Hy. lia.
+    + apply tkey_eqb_false in E.
+      destruct ((t_parent x <? t_parent y) || ((t_parent x =? t_parent y) && (t_id x <? t_id y))) eqn:E2.
+      * destruct Hin as [<-|[<-|Hin]]; [now left| |].
+        -- right. split; [now left|]. intros [A B]. apply E. split; congruence.
+        -- right. split; [now right|]. specialize (Hy t Hin). unfold tlt in Hy. lia.
+      * destruct Hin as [<-|Hin].
+        -- right. split; [now left|]. intros [A B]. apply E. split; congruence.
+        -- destruct (IH Hr Hin) as [->|[A B]]; [now left|]. right. split; [now right|exact B].
+Qed.
+
+(** an existing entry is rewritten in place: same key, same slate, same class or not live any more *)
+Lemma uniq_save_replace l x t :
+  StronglySorted tlt l -> Uniq l -> In t l ->
+  t_parent x = t_parent t -> t_id x = t_id t -> t_slate x = t_slate t ->
+  (live_class x = live_class t \/ live_class x = 0) ->
+  Uniq (save_tx l x).
+Proof.
+  intros Hs Hu Hin Kp Ki Ksl Kc a b Ha Hb Hab.
+  apply (in_save_tx_sorted _ _ _ Hs) in Ha. apply (in_save_tx_sorted _ _ _ Hs) in Hb.
+  destruct Hab as (C1 & C2 & C3 & C4 & C5).
+  assert (Hx : forall o, In o l -> ~ (t_parent o = t_parent x /\ t_id o = t_id x) ->
+             live_class x <> 0 -> live_class x = live_class o -> t_slate x = t_slate o ->
+             t_slate x <> None -> t_parent x = t_parent o -> False).
+  { intros o Ho Hne D1 D2 D3 D4 D5. destruct Kc as [Kc|Kc]; [|congruence].
+    assert (t_id t = t_id o).
+    { apply Hu; [exact Hin|exact Ho|]. unfold same_slot. repeat split; congruence. }
+    apply Hne. split; congruence. }
+  destruct Ha as [->|[Ha Na]], Hb as [->|[Hb Nb]].
+  - reflexivity.
+  - exfalso. eapply (Hx b); eauto.
+  - exfalso. eapply (Hx a); eauto; congruence.
+  - apply Hu; auto. unfold same_slot. auto.
+Qed.
+
+(** a new entry: not live, without a slate, or the first live one of its kind for its slate *)
+Lemma uniq_save_new l x :
+  Uniq l ->
+  (live_class x = 0 \/ t_slate x = None
+   \/ forall o, In o l -> ~ (live_class o = live_class x /\ t_slate o = t_slate x /\ t_parent o = t_parent x)) ->
+  Uniq (save_tx l x).
+Proof.
+  intros Hu Hx a b Ha Hb Hab. apply in_save_tx in Ha. apply in_save_tx in Hb.
+  destruct Hab as (C1 & C2 & C3 & C4 & C5).
+  destruct Ha as [->|Ha], Hb as [->|Hb].
+  - reflexivity.
+  - exfalso. destruct Hx as [H|[H|H]]; [congruence|congruence|]. apply (H b Hb). repeat split; congruence.
+  - exfalso. destruct Hx as [H|[H|H]]; [congruence|congruence|]. apply (H a Ha). repeat split; congruence.
+  - apply Hu; auto. unfold same_slot. auto.
+Qed.
+
+Lemma uniq_map (f : trec -> trec) l :
+  (forall t, In t l -> t_parent (f t) = t_parent t /\ t_id (f t) = t_id t /\ t_slate (f t) = t_slate t
+                       /\ (live_class (f t) = live_class t \/ live_class (f t) = 0)) ->
+  Uniq l -> Uniq (map f l).
+Proof.
+  intros Hf Hu a b Ha Hb (C1 & C2 & C3 & C4 & C5).
+  apply in_map_iff in Ha as (a0 & <- & Ha0). apply in_map_iff in Hb as (b0 & <- & Hb0).
+  destruct (Hf a0 Ha0) as (A1 & A2 & A3 & A4). destruct (Hf b0 Hb0) as (B1 & B2 & B3 & B4).
+  rewrite A2, B2. apply Hu; auto. unfold same_slot.
+  destruct A4 as [A4|A4]; [|congruence]. destruct B4 as [B4|B4]; [|congruence].
+  repeat split; congruence.
+Qed.
+
+Definition cls_kept (l l' : list trec) : Prop :=
+  forall p i t, get_tx l p i = Some t ->
+  exists t', get_tx l' p i = Some t' /\ live_class t' = live_class t.
+Lemma cls_kept_refl l : cls_kept l l.
+Proof. intros p i t H. eauto. Qed.
+Lemma cls_kept_trans l1 l2 l3 : cls_kept l1 l2 -> cls_kept l2 l3 -> cls_kept l1 l3.
+Proof.
+  intros A B p i t H. destruct (A p i t H) as (t' & H1 & H2). destruct (B p i t' H1) as (t'' & H3 & H4).
+  exists t''. split; [exact H3|congruence].
+Qed.
+
+Lemma stage1_uniq parent w o :
+  LogSorted w -> LogBelow w ->
+  cls_kept (w_log w) (w_log (fst (stage1 parent w o)))
+  /\ (Uniq (w_log w) -> Uniq (w_log (fst (stage1 parent w o)))).
+Proof.
+  intros Hs Hb. unfold stage1. destruct (r_cb o && status_eqb (r_status o) Unconfirmed).
+  - unfold next_log_id. cbn zeta. cbn [fst w_log with_log with_logid].
+    set (x := mkT parent (lookup (w_logid w) parent) None TCoinbase true (r_value o) 0 None None 0 1 true false).
+    split.
+    + intros p i t Hg. rewrite get_save_tx. destruct (tkey_eqb x p i) eqn:E; [|eauto].
+      exfalso. apply tkey_eqb_iff in E as [A B]. cbn in A, B. subst p i.
+      rewrite below_fresh_id in Hg by exact Hb. discriminate.
+    + intros Hu. apply uniq_save_new; [exact Hu|]. left. reflexivity.
+  - cbn [fst]. split; [apply cls_kept_refl|auto].
+Qed.
+
+Lemma stage2_uniq parent w1 o1 :
+  LogSorted w1 -> LogBelow w1 ->
+  cls_kept (w_log w1) (w_log (stage2 parent w1 o1))
+  /\ (Uniq (w_log w1) -> Uniq (w_log (stage2 parent w1 o1))).
+Proof.
+  intros Hs Hb. unfold stage2.
+  destruct (negb (r_cb o1) && _); [|split; [apply cls_kept_refl|auto]].
+  destruct (find _ (w_log w1)) as [t|] eqn:Ef; [|split; [apply cls_kept_refl|auto]].
+  apply find_some in Ef as [Hin _].
+  set (t' := if ttype_eqb (t_type t) TReverted then set_ttype t TReceived else t).
+  set (x := set_conf t' true).
+  assert (Kx : t_parent x = t_parent t /\ t_id x = t_id t /\ t_slate x = t_slate t /\ live_class x = live_class t).
+  { unfold x, t'. destruct (ttype_eqb (t_type t) TReverted) eqn:E.
+    - assert (Hr : t_type t = TReverted) by (destruct (t_type t); try discriminate; reflexivity).
+      unfold live_class. rewrite Hr. destruct t; cbn. auto.
+    - destruct t; cbn. auto. }
+  destruct Kx as (Kp & Ki & Ksl & Kc).
+  pose proof (sorted_get_tx _ _ Hs Hin) as Hgt.
+  cbn [w_log with_log]. split.
+  - intros p i t0 Hg. rewrite get_save_tx. destruct (tkey_eqb x p i) eqn:E; [|eauto].
+    apply tkey_eqb_iff in E as [A B]. rewrite Kp in A. rewrite Ki in B. subst p i.
+    rewrite Hgt in Hg. inversion Hg; subst t0. exists x. split; [reflexivity|exact Kc].
+  - intros Hu. eapply uniq_save_replace; eauto.
+Qed.
+
+Lemma apply_one_uniq parent tip p rev w q :
+  LogSorted w -> LogBelow w ->
+  cls_kept (w_log w) (w_log (apply_one parent tip p rev w q))
+  /\ (Uniq (w_log w) -> Uniq (w_log (apply_one parent tip p rev w q))).
+Proof.
+  intros Hs Hb. rewrite apply_one_eq.
+  destruct (get_out (w_outs w) (r_key q) (r_mmr q)) as [o|]; [|split; [apply cls_kept_refl|auto]].
+  destruct (present_height p (r_key q) (r_mmr q)) as [h|]; [|cbn [w_log with_outs]; split; [apply cls_kept_refl|auto]].
+  destruct (stage1 parent w o) as [w1 o1] eqn:E1.
+  pose proof (stage1_step parent w o Hs Hb) as (L1 & _). pose proof (stage1_uniq parent w o Hs Hb) as (C1 & U1).
+  rewrite E1 in L1, C1, U1. cbn [fst] in *.
+  pose proof (stage2_uniq parent w1 o1 (ls_sorted _ _ L1) (ls_below _ _ L1)) as (C2 & U2).
+  cbn [w_log with_outs]. split; [eapply cls_kept_trans; eauto|auto].
+Qed.
+
+Lemma fold_apply_uniq parent tip p rev : forall l w,
+  LogSorted w -> LogBelow w ->
+  cls_kept (w_log w) (w_log (fold_left (apply_one parent tip p rev) l w))
+  /\ (Uniq (w_log w) -> Uniq (w_log (fold_left (apply_one parent tip p rev) l w))).
+Proof.
+  induction l as [|q r IH]; intros w Hs Hb; cbn [fold_left]; [split; [apply cls_kept_refl|auto]|].
+  destruct (apply_one_step parent tip p rev w q Hs Hb) as (A1 & A2 & _).
+  destruct (apply_one_uniq parent tip p rev w q Hs Hb) as (C1 & U1).
+  destruct (IH _ A1 A2) as (C2 & U2).
+  split; [eapply cls_kept_trans; eauto|auto].
+Qed.
+
+Lemma refresh_uniq w parent all tip p km :
+  LogSorted w -> LogBelow w -> Uniq (w_log w) -> Uniq (w_log (refresh w parent all tip p km)).
+Proof.
+  intros Hs Hb Hu. unfold refresh.
+  assert (Hclean : forall w0, w_log (clean_old_unconfirmed w0 tip) = w_log w0).
+  { intros w0. unfold clean_old_unconfirmed. destruct (tip <? 50); reflexivity. }
+  rewrite Hclean. unfold refresh_apply.
+  set (qs := refresh_set w parent all). set (rev := reverted_ids w parent qs p km).
+  destruct (tip <? lookup (w_confh w) parent); [exact Hu|].
+  destruct (fold_apply_step parent tip p rev qs w Hs Hb) as (A1 & _).
+  destruct (fold_apply_uniq parent tip p rev qs w Hs Hb) as (C1 & U1).
+  set (w1 := fold_left (apply_one parent tip p rev) qs w) in *.
+  cbn [w_log with_confh with_log]. apply uniq_map; [|auto].
+  intros t Hin.
+  destruct (existsb (N.eqb (t_id t)) rev && (t_parent t =? parent)) eqn:E;
+    [|repeat split; auto].
+  (* the entries the reverted-kernel rule marks are received entries *)
+  apply andb_true_iff in E as [E1 E2].
+  apply (reverted_ids_spec w parent qs p km (t_id t)) in E1 as (tr & Htr & Hid & Hpar & Hty & _).
+  pose proof (sorted_get_tx _ _ Hs Htr) as Hgr. rewrite Hid, Hpar in Hgr.
+  destruct (C1 _ _ _ Hgr) as (t1 & Hg1 & Hc1).
+  pose proof (sorted_get_tx _ _ A1 Hin) as Hgt.
+  assert (Hp : t_parent t = parent) by lia. rewrite Hp, Hg1 in Hgt. inversion Hgt; subst t1.
+  unfold live_class in Hc1. rewrite Hty in Hc1.
+  fold (live_class t) in Hc1.
+  repeat split; try (destruct t; reflexivity). left. rewrite Hc1. destruct t; reflexivity.
+Qed.
+
+Lemma class_sent t : live_class t = 1 <-> t_type t = TSent.
+Proof. unfold live_class. destruct (t_type t); split; intros H; try discriminate; auto. Qed.
+Lemma class_recv t : live_class t = 2 <-> (t_type t = TReceived \/ t_type t = TReverted).
+Proof. unfold live_class. destruct (t_type t); split; intros H; try discriminate; auto; destruct H; discriminate. Qed.
+
+Lemma receive_uniq w s a t d c :
+  Uniq (w_log w) -> Uniq (w_log (fst (receive w s a t d c))).
+Proof.
+  intros Hu. unfold receive.
+  destruct (check_ttl w t) as [[]|e|q]; cbn [fst]; try exact Hu.
+  destruct (existsb _ (w_log w)) eqn:Ex; cbn [fst]; [exact Hu|].
+  destruct (next_child w) as [w1 key] eqn:En.
+  apply next_child_spec in En as (_ & _ & _ & _ & Hl1 & _).
+  unfold next_log_id. cbn zeta. cbn [fst w_log with_log with_outs with_logid]. rewrite Hl1.
+  apply uniq_save_new; [exact Hu|]. right. right. intros o Ho (A & B & C). cbn in A, B, C.
+  assert (existsb (fun t0 => optN_eqb (t_slate t0) (Some s)
+            && (t_parent t0 =? match d with Some d0 => d0 | None => w_active w end)
+            && (ttype_eqb (t_type t0) TReceived || ttype_eqb (t_type t0) TReverted)) (w_log w) = true).
+  { apply existsb_exists. exists o. split; [exact Ho|]. rewrite B, C, optN_eqb_refl, N.eqb_refl.
+    apply class_recv in A as [-> | ->]; reflexivity. }
+  congruence.
+Qed.
+
+Lemma lock_uniq w s t tip :
+  Uniq (w_log w) -> Uniq (w_log (fst (lock w s t tip))).
+Proof.
+  intros Hu. unfold lock, lock_tx; cbn [negb andb].
+  destruct (get_ctx w s) as [c|]; cbn [fst]; [|exact Hu].
+  destruct (existsb _ (w_log w)) eqn:Ex; cbn [fst]; [exact Hu|].
+  unfold next_log_id. cbn zeta. cbn [w_outs with_logid].
+  destruct (lock_inputs _ _ _ _) as [[outs1 deb]|e|q]; cbn [fst]; try exact Hu.
+  cbn [w_log with_files with_log with_outs with_logid].
+  apply uniq_save_new; [exact Hu|]. right. right. intros o Ho (A & B & C). cbn in A, B, C.
+  assert (existsb (fun t0 => optN_eqb (t_slate t0) (Some s) && (t_parent t0 =? c_parent c)
+                             && ttype_eqb (t_type t0) TSent) (w_log w) = true).
+  { apply existsb_exists. exists o. split; [exact Ho|]. rewrite B, C, optN_eqb_refl, N.eqb_refl.
+    apply class_sent in A. rewrite A. reflexivity. }
+  congruence.
+Qed.
+
+Lemma cancel_uniq w id sl :
+  LogSorted w -> Uniq (w_log w) -> Uniq (w_log (fst (cancel w id sl))).
+Proof.
+  intros Hs Hu. unfold cancel.
+  destruct (retrieve_txs w id sl (w_active w)) as [|t [|t2 r]] eqn:Er; cbn [fst]; try exact Hu.
+  destruct (negb _) eqn:Et; cbn [fst]; [exact Hu|]. destruct (t_conf t); cbn [fst]; [exact Hu|].
+  assert (Hin : In t (w_log w)).
+  { assert (H : In t (retrieve_txs w id sl (w_active w))) by (rewrite Er; now left).
+    unfold retrieve_txs in H. apply filter_In in H as [H _]. exact H. }
+  cbn [w_log with_log with_outs].
+  eapply uniq_save_replace; [exact Hs|exact Hu|exact Hin|destruct t; reflexivity..|].
+  right.
+  assert (Hty : t_type t = TSent \/ t_type t = TReceived \/ t_type t = TReverted)
+    by (destruct (t_type t); cbn in Et; try discriminate; auto).
+  unfold live_class. destruct Hty as [H | [H | H]]; destruct t; cbn in *; rewrite H; reflexivity.
+Qed.
+
+Lemma expire_uniq w tip :
+  WF w -> Core w -> Uniq (w_log w) -> Uniq (w_log (expire w tip)).
+Proof.
+  unfold expire. generalize (filter (fun t => (t_parent t =? w_active w) && outstanding t) (w_log w)).
+  intros l. revert w. induction l as [|t r IH]; intros w Hwf Hc Hu; cbn [fold_left]; [exact Hu|].
+  assert (H : WF (expire_one tip w t) /\ Core (expire_one tip w t) /\ Uniq (w_log (expire_one tip w t))).
+  { unfold expire_one. destruct (t_ttl t); [|auto]. destruct (_ <=? _); [|auto].
+    split; [|split].
+    - pose proof (step_wf w (OpCancel (Some (t_id t)) None) Hwf) as Hw. cbn [step] in Hw.
+      destruct (cancel w (Some (t_id t)) None); exact Hw.
+    - apply cancel_core; assumption.
+    - apply cancel_uniq; [apply (core_sorted _ Hc)|exact Hu]. }
+  destruct H as (H1 & H2 & H3). apply IH; assumption.
+Qed.
+
+Lemma finalize_uniq w s t tip so co :
+  LogSorted w -> Uniq (w_log w) -> Uniq (w_log (fst (finalize w s t tip so co))).
+Proof.
+  intros Hs Hu. unfold finalize. destruct (get_ctx w s) as [c|]; cbn [fst]; [|exact Hu].
+  destruct (check_ttl w t) as [[]|e|q]; cbn [fst]; try exact Hu.
+  destruct (negb so); cbn [fst]; [exact Hu|].
+  set (late_result := match c_late c with None => (w, Ok c) | Some la => _ end).
+  assert (Hlate : Uniq (w_log (fst late_result)) /\ StronglySorted tlt (w_log (fst late_result))).
+  { unfold late_result. destruct (c_late c) as [la|]; cbn [fst]; [|split; assumption].
+    destruct (build_send _ _) as [b|e|q]; cbn [fst]; try (split; assumption).
+    destruct (alloc_change w (b_changes b)) as [w1 chg] eqn:Ea.
+    pose proof (alloc_change_outs _ _ _ _ Ea) as (_ & E2 & _).
+    destruct (negb _); cbn [fst]; [rewrite E2; split; assumption|].
+    match goal with |- context [lock (save_ctx w1 ?cc) s t tip] => set (c' := cc) end.
+    assert (Hl2 : w_log (save_ctx w1 c') = w_log w) by (cbn; exact E2).
+    assert (Hu2 : Uniq (w_log (save_ctx w1 c'))) by (rewrite Hl2; exact Hu).
+    pose proof (lock_uniq (save_ctx w1 c') s t tip Hu2) as Hu3.
+    assert (Hs3 : StronglySorted tlt (w_log (fst (lock (save_ctx w1 c') s t tip)))).
+    { unfold lock, lock_tx; cbn [negb andb]. destruct (get_ctx (save_ctx w1 c') s); cbn [fst]; [|rewrite Hl2; exact Hs].
+      destruct (existsb _ _); cbn [fst]; [rewrite Hl2; exact Hs|].
+      unfold next_log_id. cbn zeta. cbn [w_outs with_logid].
+      destruct (lock_inputs _ _ _ _) as [[o1 d1]|e|q]; cbn [fst]; try (rewrite Hl2; exact Hs).
+      cbn [w_log with_files with_log with_outs with_logid]. apply sorted_save_tx. rewrite Hl2. exact Hs. }
+    destruct (lock (save_ctx w1 c') s t tip) as [w3 [u|e|q]]; cbn [fst] in *; split; assumption. }
+  destruct Hlate as [Hul Hsl].
+  destruct late_result as [w' [c'|e|q]]; cbn [fst] in *; try exact Hul.
+  destruct (negb co); cbn [fst]; [exact Hul|].
+  destruct (negb (existsb _ _)); cbn [fst]; [exact Hul|].
+  destruct (find _ (w_log w')) as [te|] eqn:Ef; cbn [fst]; [|exact Hul].
+  apply find_some in Ef as [Hin _].
+  cbn [w_log del_ctx with_ctxs with_files with_log].
+  eapply uniq_save_replace; [exact Hsl|exact Hul|exact Hin|destruct te; reflexivity..|].
+  left. destruct te; reflexivity.
+Qed.
+
+(** every standard-flow step keeps the log free of a second live entry for a slate *)
+Theorem step_uniq w o :
+  std_op o = true -> Inv w -> Uniq (w_log w) -> Uniq (w_log (fst (step w o))).
+Proof.
+  intros Hstd (Hf & Hwf & Hc) Hu. pose proof (core_sorted _ Hc) as Hs. pose proof (core_below _ Hc) as Hb.
+  destruct o; cbn [std_op] in Hstd; try discriminate; cbn [step].
+  - pose proof (receive_uniq w slate amount ttl dest crypto_ok Hu) as H.
+    destruct (receive w slate amount ttl dest crypto_ok); exact H.
+  - destruct (lock_tx_cases w slate ttl tip has_tx) as [-> | ->]; [|cbn [fst]; exact Hu].
+    pose proof (lock_uniq w slate ttl tip Hu) as H. destruct (lock w slate ttl tip); exact H.
+  - pose proof (cancel_uniq w id slate Hs Hu) as H. destruct (cancel w id slate); exact H.
+  - unfold coinbase. destruct (match key with Some k0 => _ | None => None end); cbn [fst].
+    + exact Hu.
+    + destruct (next_child w) as [w1 k1] eqn:En. cbn [fst w_log with_outs].
+      apply next_child_spec in En as (_ & _ & _ & _ & Hl1 & _). rewrite Hl1. exact Hu.
+  - cbn [fst]. apply refresh_uniq; assumption.
+  - destruct (init_send_outs w slate src p late) as [_ H].
+    destruct (init_send w slate src p late) as [w' r]. cbn [fst] in *. rewrite H. exact Hu.
+  - pose proof (finalize_uniq w slate ttl tip state_ok crypto_ok Hs Hu) as H.
+    destruct (finalize w slate ttl tip state_ok crypto_ok); exact H.
+  - cbn [fst]. exact Hu.
+  - cbn [fst]. apply expire_uniq; assumption.
+Qed.
+
+Theorem uniq_reachable : forall ops, forallb std_op ops = true -> Uniq (w_log (run empty_wallet ops)).
+Proof.
+  assert (H : forall ops w, forallb std_op ops = true -> Inv w -> Uniq (w_log w) ->
+            Uniq (w_log (run w ops))).
+  { induction ops as [|o r IH]; intros w Hstd Hi Hu; cbn [run fold_left]; [exact Hu|].
+    cbn [forallb] in Hstd. apply andb_true_iff in Hstd as [H1 H2].
+    apply IH; [exact H2|apply step_inv; assumption|apply step_uniq; assumption]. }
+  intros ops Hstd. apply H; [exact Hstd| |intros a b []].
+  split; [apply fresh_empty|]. split; [unfold WF; cbn; constructor|apply core_empty].
+Qed.
+
+(** the statement in the property's words: in every reachable state a slate has at most one live
+    sent entry and at most one live received entry per account *)
+Theorem one_live_entry_per_slate : forall ops, forallb std_op ops = true ->
+  forall a b s, In a (w_log (run empty_wallet ops)) -> In b (w_log (run empty_wallet ops)) ->
+  t_slate a = Some s -> t_slate b = Some s -> t_parent a = t_parent b ->
+  ((t_type a = TSent /\ t_type b = TSent)
+   \/ ((t_type a = TReceived \/ t_type a = TReverted) /\ (t_type b = TReceived \/ t_type b = TReverted))) ->
+  a = b.
+Proof.
+  intros ops Hstd a b s Ha Hb Sa Sb Hp Hty.
+  pose proof (uniq_reachable ops Hstd) as Hu.
+  destruct (inv_reachable ops Hstd) as (_ & _ & Hc). pose proof (core_sorted _ Hc) as Hs.
+  assert (Hid : t_id a = t_id b).
+  { apply Hu; [exact Ha|exact Hb|]. unfold same_slot.
+    destruct Hty as [[A B]|[A B]].
+    - apply class_sent in A. apply class_sent in B. repeat split; congruence.
+    - apply class_recv in A. apply class_recv in B. repeat split; congruence. }
+  pose proof (sorted_get_tx _ _ Hs Ha) as G1. pose proof (sorted_get_tx _ _ Hs Hb) as G2.
+  rewrite Hp, Hid in G1. congruence.
+Qed.
